@@ -28,6 +28,7 @@ var (
 	fReplay    = flag.String("replay", "", "replay file to execute")
 	fReplayDir = flag.String("replaydir", "", "directory for replay files")
 	fTrace     = flag.Bool("trace", false, "print the history of a replay")
+	fWorkers   = flag.Int("workers", 1, "total number of workers (enumeration is dealt round-robin)")
 	fMode      = flag.String("mode", "serial", "serial | race")
 	fBeginLog  = flag.String("beginlog", "", "race mode: file that receives the plan about to run")
 )
@@ -74,20 +75,26 @@ type fakeTB struct {
 	logs   []string
 }
 
-func (f *fakeTB) Helper()                       {}
-func (f *fakeTB) Name() string                  { return "sim" }
-func (f *fakeTB) Logf(s string, a ...any)       {}
-func (f *fakeTB) Log(a ...any)                  {}
-func (f *fakeTB) Skipf(s string, a ...any)      {}
-func (f *fakeTB) Skip(a ...any)                 {}
-func (f *fakeTB) SkipNow()                      {}
-func (f *fakeTB) Errorf(s string, a ...any)     { f.failed = true; f.logs = append(f.logs, fmt.Sprintf(s, a...)) }
-func (f *fakeTB) Error(a ...any)                { f.failed = true }
-func (f *fakeTB) Fatalf(s string, a ...any)     { f.failed = true; f.logs = append(f.logs, fmt.Sprintf(s, a...)) }
-func (f *fakeTB) Fatal(a ...any)                { f.failed = true }
-func (f *fakeTB) FailNow()                      { f.failed = true }
-func (f *fakeTB) Fail()                         { f.failed = true }
-func (f *fakeTB) Failed() bool                  { return f.failed }
+func (f *fakeTB) Helper()                  {}
+func (f *fakeTB) Name() string             { return "sim" }
+func (f *fakeTB) Logf(s string, a ...any)  {}
+func (f *fakeTB) Log(a ...any)             {}
+func (f *fakeTB) Skipf(s string, a ...any) {}
+func (f *fakeTB) Skip(a ...any)            {}
+func (f *fakeTB) SkipNow()                 {}
+func (f *fakeTB) Errorf(s string, a ...any) {
+	f.failed = true
+	f.logs = append(f.logs, fmt.Sprintf(s, a...))
+}
+func (f *fakeTB) Error(a ...any) { f.failed = true }
+func (f *fakeTB) Fatalf(s string, a ...any) {
+	f.failed = true
+	f.logs = append(f.logs, fmt.Sprintf(s, a...))
+}
+func (f *fakeTB) Fatal(a ...any) { f.failed = true }
+func (f *fakeTB) FailNow()       { f.failed = true }
+func (f *fakeTB) Fail()          { f.failed = true }
+func (f *fakeTB) Failed() bool   { return f.failed }
 
 type WorkerViolation struct {
 	ViolationRec
@@ -103,12 +110,12 @@ type WorkerOut struct {
 	Worker     int               `json:"worker"`
 	Runs       int               `json:"runs"`
 	Unbuilt    int               `json:"unconstructed"`
-	Hashes     []uint64          `json:"hashes"`      // distinct non-trivial (schedule × outcome) signatures
-	SchedHash  []uint64          `json:"sched_hash"`  // distinct schedule signatures
-	StateHash  []uint64          `json:"state_hash"`  // distinct outcome signatures
+	Hashes     []uint64          `json:"hashes"`     // distinct non-trivial (schedule × outcome) signatures
+	SchedHash  []uint64          `json:"sched_hash"` // distinct schedule signatures
+	StateHash  []uint64          `json:"state_hash"` // distinct outcome signatures
 	Fired      map[string]int    `json:"fired"`
 	Probes     map[string]int    `json:"probes"`
-	SimNs      int64             `json:"sim_ns"`
+	SimS       float64           `json:"sim_s"`
 	Steps      int               `json:"steps"`
 	NoOps      int               `json:"noops"`
 	Tasks      int               `json:"tasks"`
@@ -131,11 +138,11 @@ func h64(s string) uint64 {
 }
 
 type collector struct {
-	out     *WorkerOut
-	hashes  map[uint64]bool
-	sched   map[uint64]bool
-	state   map[uint64]bool
-	known   map[string]KnownFinding
+	out    *WorkerOut
+	hashes map[uint64]bool
+	sched  map[uint64]bool
+	state  map[uint64]bool
+	known  map[string]KnownFinding
 }
 
 func newCollector(prop string) *collector {
@@ -155,7 +162,7 @@ func (c *collector) add(res *Result) {
 	for k, v := range res.Probes {
 		o.Probes[k] += v
 	}
-	o.SimNs += res.SimNs
+	o.SimS += float64(res.SimNs) / 1e9
 	o.Steps += res.Steps
 	o.NoOps += res.NoOps
 	o.Tasks += len(res.Tasks)
